@@ -1,10 +1,15 @@
 package rtsp
 
 import (
+	"encoding/base64"
+	"encoding/binary"
+
 	"github.com/cnotch/ipchub/config"
 	"github.com/cnotch/ipchub/media"
 	"github.com/cnotch/ipchub/provider/auth"
+	"github.com/cnotch/ipchub/provider/security"
 	"github.com/cnotch/ipchub/zzverif/symapi"
+	"github.com/cnotch/xlog"
 )
 
 // VerifSessionAuthHistory: decisions follow the user table as last saved, also inside one
@@ -122,4 +127,33 @@ func verifWsResponses(msgs [][]byte, from, to int) int {
 		off += len(m)
 	}
 	return 0
+}
+
+// VerifTokenNotDerivable: an unauthenticated RTSP client is told its session id (any
+// response) and a digest nonce; afterwards a user logs in and is issued tokens. Whatever
+// the client computes from what it was told must not be the access or refresh token: the
+// client tries the obvious derivation (the identifiers are consecutive values of one
+// process-wide counter, tokens are MD5 of such a value).
+func VerifTokenNotDerivable() {
+	fc := &verifConn{}
+	s := newSession(&Server{logger: xlog.L()}, fc)
+	s.authMode = auth.NoneAuth
+	s.onRequest(verifReq(MethodOptions, "rtsp://h/live/a", "1", "", ""))
+	rs := verifResponses(fc.out)
+	symapi.Assert(len(rs) == 1 && rs[0] != nil, "options-answered")
+	sid := rs[0].Header.Get(FieldSession) // disclosed to the unauthenticated client
+	raw, err := base64.RawURLEncoding.DecodeString(sid)
+	tm := new(auth.TokenManager)
+	tok := tm.NewToken("admin")
+	if err == nil {
+		if n, k := binary.Uvarint(raw); k > 0 {
+			for d := uint64(1); d <= 4; d++ {
+				g := security.ID(n + d).MD5()
+				// (no branching on the secret: each guess is one existential obligation)
+				symapi.Possible(g != tok.AToken, "access-token-not-computable-from-a-disclosed-session-id")
+				symapi.Possible(g != tok.RToken, "refresh-token-not-computable-from-a-disclosed-session-id")
+			}
+		}
+	}
+	symapi.Reach("end")
 }
